@@ -208,6 +208,11 @@ func (privateKey *PrivateKey) Proof(k *big.Int, ecdsaPub *crypto2.ECPoint) Proof
 }
 
 func (pf Proof) Verify(pkN, k *big.Int, ecdsaPub *crypto2.ECPoint) (bool, error) {
+	// GenerateXs draws 256*ceil(bits/256)-bit candidates until one lies in Z_N^*; refuse moduli
+	// (non-positive, or with a bit length far below a multiple of 256) for which that loop cannot end
+	if pkN.Sign() != 1 || 16 < 256*((pkN.BitLen()+255)/256)-pkN.BitLen() {
+		return false, nil
+	}
 	iters := ProofIters
 	pch, xch := make(chan bool, 1), make(chan []*big.Int, 1) // buffered to allow early exit
 	prms := primes.Until(verifyPrimesUntil).List()           // uses cache primed in init()
